@@ -59,3 +59,72 @@ class Model:
         if root[0] == "arg" and body.kind == "closure" and root[1] == 2 and body.id in self.tls_closure:
             return None, ("tls", self.tls_closure[body.id])
         return body, root
+
+
+def _registry_fns(self):
+    """root fns G(id, f) that look up a thread-local registry under `id` and call f on the entry: {G.id: KEY}"""
+    if getattr(self, "_reg", None) is not None:
+        return self._reg
+    ctx = self.ctx
+    reg = {}
+    for (b, bi, t, key, cid) in self.tls_sites:
+        if b.kind == "closure" or cid is None:
+            continue
+        cb = ctx.facts.bodies.get(cid)
+        if cb is None:
+            continue
+        calls_param = any((t2.get("callee") or "") in ("std::ops::FnOnce::call_once", "std::ops::FnMut::call_mut",
+                                                        "std::ops::Fn::call") and not t2.get("resolved")
+                          for _, t2 in cb.calls())
+        if calls_param:
+            reg[b.id] = key
+    self._reg = reg
+    return reg
+
+
+def _origin(self, body, e, depth=0):
+    """cross-body provenance of an expression:
+       ('param', root fn id, index)   parameter of a root function
+       ('reg', KEY, id origin)        entry of a thread-local registry handed to a closure by using_store-like fns
+       ('const', value) | ('expr', body id, expr)"""
+    from . import sym as S_
+    e = S_.strip_refs(e)
+    if depth > 8 or not isinstance(e, tuple) or not e:
+        return ("expr", body.id, e)
+    if e[0] in ("const", "nconst"):
+        return ("const", S_.const_value(e))
+    if e[0] == "upvar":
+        pb, pe = self.upvar_expr(body, e[1])
+        if pb is None:
+            return ("expr", body.id, e)
+        return self.origin(pb, pe, depth + 1)
+    if e[0] == "arg":
+        if body.kind != "closure":
+            return ("param", body.id, e[1])
+        # closure parameter: who calls this closure?
+        c = self.creation.get(body.id)
+        if c is None:
+            return ("expr", body.id, e)
+        pb, bi, si, st = c
+        psy = self.ctx.sym(pb)
+        for cbi, t in pb.calls():
+            args = [psy.operand(a) for a in t["args"]]
+            for ai, a in enumerate(args):
+                a2 = S_.strip_refs(a)
+                if isinstance(a2, tuple) and a2 and a2[0] == "agg" and a2[1] == "closure" and a2[2] == body.id:
+                    tgt = t.get("resolved") or t.get("callee")
+                    reg = self.registry_fns()
+                    if tgt in reg and e[1] == 2:
+                        return ("reg", reg[tgt], self.origin(pb, args[0], depth + 1))
+                    if tgt and self.ctx.facts.canon_is(tgt, "std::thread::LocalKey::with") and e[1] == 2:
+                        k = S_.strip_refs(args[0])
+                        return ("tls", k[1] if k[0] == "nconst" else None)
+        return ("expr", body.id, e)
+    if e[0] == "field":
+        o = self.origin(body, e[1], depth + 1)
+        return ("field", o, e[2])
+    return ("expr", body.id, e)
+
+
+Model.registry_fns = _registry_fns
+Model.origin = _origin
